@@ -385,6 +385,9 @@ fn run_case(seed: u64, idx: u64, _tier: Tier, out: &mut CaseOut) {
     let mut p = Profile::full();
     p.links = false;
     p.sup = false;
+    // (stray children of a <ul> become items of their own; words among them may be
+    // turned into links below)
+    p.stray_in_list = rng.chance(1, 3);
     p.long_permille = 10;
     p.wide_permille = 40;
     p.max_blocks = 8;
